@@ -35,9 +35,13 @@ using namespace llbuild::buildsystem;
 
 CommandSignature ExternalCommand::getSignature() const {
   CommandSignature code(getName());
+  // Each list is preceded by its length, so that moving an element across a
+  // list boundary changes the signature.
+  code = code.combine(uint64_t(inputs.size()));
   for (const auto* input: inputs) {
     code = code.combine(input->getName());
   }
+  code = code.combine(uint64_t(outputs.size()));
   for (const auto* output: outputs) {
     code = code.combine(output->getName());
   }
